@@ -921,14 +921,43 @@ class Interp:
             v.maybe_none = False
         return v
 
+    def _live_items(self, s, st, fr):
+        """If the iterable is an attribute whose value is a known heap list, return that list as it is *now*."""
+        it = s.iter
+        if isinstance(it, ast.Attribute):
+            self._quiet += 1
+            try:
+                base = self.eval(it.value, st, fr)
+            finally:
+                self._quiet -= 1
+            if isinstance(base, Obj):
+                v = st.heap.get((base.name, it.attr))
+                if isinstance(v, ListV):
+                    return v.items
+        return None
+
     def _concrete_for(self, s, st, fr, items):
         outs = [(st, None)]
-        for it in items:
+        live = self._live_items(s, st, fr) is not None
+        n_iter = len(items) if not live else 64
+        for idx in range(n_iter):
             nxt = []
+            any_active = False
             for st0, ex in outs:
                 if ex is not None:
                     nxt.append((st0, ex))
                     continue
+                if live:
+                    cur = self._live_items(s, st0, fr)
+                    if cur is None:
+                        cur = items
+                    if idx >= len(cur):
+                        nxt.append((st0, ("__done__",)))
+                        continue
+                    it = cur[idx]
+                else:
+                    it = items[idx]
+                any_active = True
                 self.assign(s.target, it, st0, fr, s, quiet=True)
                 for st1, ex1 in self.exec_block(s.body, st0, fr):
                     if ex1 is None or ex1[0] == "continue":
@@ -938,8 +967,12 @@ class Interp:
                     else:
                         nxt.append((st1, ex1))
             outs = nxt
+            if live and not any_active:
+                break
         res = []
         for st0, ex in outs:
+            if ex == ("__done__",):
+                ex = None
             if ex == ("__broken__",):
                 res.append((st0, None))
             elif ex is None and s.orelse:
@@ -1094,6 +1127,14 @@ class Interp:
             st.trace.append(mev)
             if isinstance(cur, ListV) and cur.fresh and op == "append" and len(args) == 1:
                 st.heap[(base.name, recv_expr.attr)] = ListV(cur.items + [args[0]], True, cur.kind)
+            elif isinstance(cur, ListV) and cur.fresh and op == "remove" and len(args) == 1 and \
+                    all(self._equal(args[0], x) is not None for x in cur.items) and any(self._equal(args[0], x) for x in cur.items):
+                items = list(cur.items)
+                for i, x in enumerate(items):
+                    if self._equal(args[0], x):
+                        del items[i]
+                        break
+                st.heap[(base.name, recv_expr.attr)] = ListV(items, True, cur.kind)
             elif isinstance(base, Obj):
                 st.heap.pop((base.name, recv_expr.attr), None)
             for k in [k for k in st.memo if _mentions(k[1], recv_expr.attr)]:
@@ -1206,6 +1247,11 @@ class Interp:
                     if -len(base.items) <= i < len(base.items):
                         return base.items[i]
             if isinstance(e.slice, ast.Slice):
+                sl = e.slice
+                if isinstance(base, ListV) and sl.lower is None and sl.upper is None and sl.step is not None:
+                    stp = self.eval(sl.step, st, fr)
+                    if isinstance(stp, Poly) and stp.is_const() and stp.const_value() == -1:
+                        return ListV(list(reversed(base.items)), True, base.kind)
                 return Unk(f"{self.path_of(base, ast.unparse(e.value))}[{ast.unparse(e.slice)}]", fr.ft.type_of(e))
             tag = f"{self.path_of(base, ast.unparse(e.value))}[{ast.unparse(e.slice)}]"
             return self.value_for_type(tag, fr.ft.type_of(e))
@@ -1393,6 +1439,11 @@ class Interp:
                 return CollV(inner.base, inner.preds, inner.typ, "set" if fname == "set" else "list")
             if isinstance(inner, ListV) and fname in ("list", "tuple"):
                 return ListV(inner.items, True, fname)
+            if isinstance(inner, ListV) and fname == "sorted" and not any(kw.arg == "key" for kw in e.keywords) and \
+                    all(isinstance(x, Poly) and x.is_const() for x in inner.items):
+                rev = next((kw.value for kw in e.keywords if kw.arg == "reverse"), None)
+                items = sorted(inner.items, key=lambda x: x.const_value(), reverse=bool(isinstance(rev, ast.Constant) and rev.value))
+                return ListV(items, True, "list")
             if fname == "set" and isinstance(inner, ListV):
                 return ListV(inner.items, True, "set")
             return Unk(f"{fname}~{next(self._fresh)}:{ast.unparse(e.args[0])[:40]}", fr.ft.type_of(e))
